@@ -81,7 +81,9 @@ impl<'arena, 'input: 'arena> Lexer<'arena, 'input> {
                 return SpannedToken { token, span: Range::from(start..self.pos) };
             }
             if b.is_ascii_digit() {
-                let token = self.scan_number(start);
+                // `1.` without a digit is reported and skipped: go on with the next token
+                // (a loop, not a recursive call: a long run of them must not eat the stack)
+                let Some(token) = self.scan_number(start) else { continue };
                 return SpannedToken { token, span: Range::from(start..self.pos) };
             }
             if Self::is_alpha_or_underscore(b) {
@@ -375,7 +377,7 @@ impl<'arena, 'input: 'arena> Lexer<'arena, 'input> {
         }
     }
 
-    fn scan_number(&mut self, start: usize) -> Token<'arena> {
+    fn scan_number(&mut self, start: usize) -> Option<Token<'arena>> {
         let len = self.len;
 
         // Try consume the integer part first
@@ -404,7 +406,7 @@ impl<'arena, 'input: 'arena> Lexer<'arena, 'input> {
                     let rest = unsafe { str::from_utf8_unchecked(&self.src[self.pos..len]) };
                     self.pos += rest.chars().next().map_or(1, char::len_utf8);
                 }
-                return self.next_token().token;
+                return None;
             }
             while self.pos < len && self.src[self.pos].is_ascii_digit() {
                 self.pos += 1;
@@ -432,12 +434,12 @@ impl<'arena, 'input: 'arena> Lexer<'arena, 'input> {
             );
             // SAFETY: start..id_start is valid UTF-8 because we only process valid number characters
             let num = unsafe { str::from_utf8_unchecked(&self.src[start..id_start]) };
-            return Token::Number(num);
+            return Some(Token::Number(num));
         }
 
         // SAFETY: start..self.pos is valid UTF-8 because we only process valid number characters
         let num = unsafe { str::from_utf8_unchecked(&self.src[start..self.pos]) };
-        Token::Number(num)
+        Some(Token::Number(num))
     }
 
     fn scan_identifier_or_keyword(&mut self, start: usize) -> Token<'arena> {
